@@ -232,7 +232,7 @@ pub fn c05_bfs_cycles_n3() {
 }
 
 // DijkstraPred::predecessors, <= 3 arcs on 3 vertices, weights < 16.
-// @verif prop=C05 tier=quick fl=f2 role=dijkstra-predecessors/sparse t=1800 mem=20
+// @verif prop=C05 tier=thorough fl=f2 role=dijkstra-predecessors/sparse t=3600 mem=30
 #[cfg_attr(kani, kani::proof)]
 #[cfg_attr(kani, kani::unwind(5))]
 pub fn c05_dijkstra_predecessors_n3_m3() {
@@ -240,9 +240,226 @@ pub fn c05_dijkstra_predecessors_n3_m3() {
 }
 
 // DijkstraPred::shortest_path, <= 3 arcs on 3 vertices, every target predicate.
-// @verif prop=C05 tier=quick fl=f2 role=dijkstra-shortest-path/sparse t=1800 mem=20
+// @verif prop=C05 tier=thorough fl=f2 role=dijkstra-shortest-path/sparse t=3600 mem=30
 #[cfg_attr(kani, kani::proof)]
 #[cfg_attr(kani, kani::unwind(5))]
 pub fn c05_dijkstra_shortest_path_n3_m3() {
     dijkstra_shortest_path::<3, 3>();
+}
+
+// ---------------------------------------------------------------------------
+// DijkstraPred, inductive form (see c03_dijkstra.rs): the heap entries carry
+// the predecessor, and the invariant says that the predecessor explains the
+// key: key = dist[pred] + w(pred, v) with pred settled, or pred = None at a
+// source with key 0.
+// ---------------------------------------------------------------------------
+
+use crate::{
+    c03_dijkstra::{
+        any_dense,
+        invariant,
+        Entry,
+        WMAX,
+    },
+    oracle::WG,
+};
+
+fn read_heap_pred<const H: usize>(it: &DijkstraPred<'_, WG<3, usize>>) -> ([Entry; H], usize, bool) {
+    let mut out = [Entry { k: 0, v: 0, p: None }; H];
+    let mut n = 0;
+    let mut overflow = false;
+
+    for e in it.heap.iter() {
+        if n < H {
+            out[n] = Entry { k: (e.0).0, v: (e.1).1, p: (e.1).0 };
+            n += 1;
+        } else {
+            overflow = true;
+        }
+    }
+
+    (out, n, overflow)
+}
+
+fn pred_base() {
+    const N: usize = 3;
+
+    cx::set_vcap(8);
+
+    let g = any_dense::<N>(WMAX);
+    let src: [bool; N] = nd::bools();
+    let delta = g.dist(&src);
+    let it = DijkstraPred::new(&g, mask(src));
+    let (entries, h, overflow) = read_heap_pred::<4>(&it);
+    let dist = [it.dist[0], it.dist[1], it.dist[2]];
+
+    assert!(!overflow && it.dist.len() == N, "initial state shape");
+    assert!(
+        invariant::<N, 4>(&g, &src, &delta, &dist, &entries, h, &[false; N], N * WMAX, true),
+        "the initial state satisfies the Dijkstra invariant"
+    );
+    core::mem::forget(it);
+}
+
+fn pred_step<const H: usize, const H2: usize>() {
+    const N: usize = 3;
+
+    cx::set_vcap(8);
+
+    let g = any_dense::<N>(WMAX);
+    let src: [bool; N] = nd::bools();
+    let delta = g.dist(&src);
+    let bound = N * WMAX;
+    let mut it = DijkstraPred::new(&g, mask([false; N]));
+    let mut dist = [INF; N];
+    let settled: [bool; N] = nd::bools();
+    let h = nd::below(H + 1);
+    let mut entries = [Entry { k: 0, v: 0, p: None }; H];
+
+    for v in 0..N {
+        dist[v] = nd::usize();
+        it.dist[v] = dist[v];
+    }
+
+    for i in 0..H {
+        entries[i] = Entry { k: nd::usize(), v: nd::below(N), p: nd::opt_below(N) };
+
+        if i < h {
+            it.heap.push((core::cmp::Reverse(entries[i].k), (entries[i].p, entries[i].v)));
+        }
+    }
+
+    kani::assume(invariant::<N, H>(&g, &src, &delta, &dist, &entries, h, &settled, bound, true));
+
+    let r = it.next();
+    let (post, h2, overflow) = read_heap_pred::<H2>(&it);
+    let dist2 = [it.dist[0], it.dist[1], it.dist[2]];
+
+    assert!(!overflow, "post-state heap fits the harness buffer");
+
+    match r {
+        Some((p, v)) => {
+            assert!(v < N && !settled[v], "a vertex is yielded at most once");
+            assert!(dist2[v] == delta[v] && delta[v] != INF, "a yielded vertex is reachable and its distance is final");
+
+            match p {
+                None => assert!(src[v], "only sources are yielded without predecessor"),
+                Some(u) => {
+                    assert!(u < N && settled[u], "the predecessor was yielded before");
+
+                    match g.w[u][v] {
+                        None => panic!("pred -> v is an arc"),
+                        Some(w) => assert!(delta[u] + w == delta[v], "dist(pred) + w = dist(v)"),
+                    }
+
+                    assert!(!src[v] || delta[v] == 0, "a source is at distance 0");
+                }
+            }
+
+            let mut settled2 = settled;
+
+            settled2[v] = true;
+
+            assert!(
+                invariant::<N, H2>(&g, &src, &delta, &dist2, &post, h2, &settled2, bound, true),
+                "next() preserves the Dijkstra invariant"
+            );
+        }
+        None => {
+            for v in 0..N {
+                assert!(settled[v] == (delta[v] != INF), "at exhaustion exactly the reachable vertices were yielded");
+            }
+        }
+    }
+
+    kani::cover!(matches!(r, Some((Some(_), _))) && h == H, "a non-root yield from a full pre-state");
+    core::mem::forget(it);
+}
+
+/// predecessors() / shortest_path() are folds of the yielded steps: whole run
+/// on 2 vertices.
+fn pred_wrappers_n2() {
+    const N: usize = 2;
+
+    cx::set_vcap(6);
+
+    let g = any_dense::<N>(WMAX);
+    let src: [bool; N] = nd::bools();
+    let target: [bool; N] = nd::bools();
+    let delta = g.dist(&src);
+    let mut it = DijkstraPred::new(&g, mask(src));
+    let tree = it.predecessors();
+
+    for v in 0..N {
+        match tree[v] {
+            None => assert!(src[v] || delta[v] == INF, "only sources and unreachable vertices have no predecessor"),
+            Some(u) => {
+                assert!(!src[v] && u < N, "sources have no predecessor");
+
+                match g.w[u][v] {
+                    None => panic!("pred[v] -> v is an arc"),
+                    Some(w) => assert!(delta[u] != INF && delta[u] + w == delta[v], "dist(pred[v]) + w = dist(v)"),
+                }
+            }
+        }
+    }
+
+    let mut best = INF;
+
+    for v in 0..N {
+        if target[v] && delta[v] < best {
+            best = delta[v];
+        }
+    }
+
+    let mut it2 = DijkstraPred::new(&g, mask(src));
+    let path = it2.shortest_path(|v| v < N && target[v]);
+
+    match &path {
+        None => assert!(best == INF, "None exactly when no reachable vertex satisfies the predicate"),
+        Some(p) => {
+            assert!(best != INF && p.len() >= 1 && p.len() <= N, "Some only when a reachable target exists");
+            assert!(src[p[0]] && target[p[p.len() - 1]], "from a source to a target");
+
+            let mut weight = 0;
+
+            if p.len() == 2 {
+                match g.w[p[0]][p[1]] {
+                    None => panic!("consecutive path vertices are joined by an arc"),
+                    Some(w) => weight = w,
+                }
+            }
+
+            assert!(weight == best, "the path has minimum weight over all targets");
+        }
+    }
+
+    core::mem::forget(path);
+    core::mem::forget(tree);
+    core::mem::forget(it);
+    core::mem::forget(it2);
+}
+
+// Base case: DijkstraPred::new establishes the invariant (3 vertices).
+// @verif prop=C05 tier=quick fl=f2 role=dijkstra-inductive/base t=1200 mem=14
+#[cfg_attr(kani, kani::proof)]
+#[cfg_attr(kani, kani::unwind(6))]
+pub fn c05_dijkstra_pred_base_n3() {
+    pred_base();
+}
+
+// Inductive step of DijkstraPred::next from ANY invariant state (3 vertices, <= 3 heap entries): tree condition for every yield.
+// @verif prop=C05 tier=quick fl=f2 role=dijkstra-inductive/step t=2400 mem=24
+#[cfg_attr(kani, kani::proof)]
+#[cfg_attr(kani, kani::unwind(6))]
+pub fn c05_dijkstra_pred_step_n3_h3() {
+    pred_step::<3, 5>();
+}
+
+// predecessors() and shortest_path() wrappers, whole run on 2 vertices.
+// @verif prop=C05 tier=quick fl=f2 role=dijkstra-wrappers/whole-run-n2 t=1800 mem=16
+#[cfg_attr(kani, kani::proof)]
+#[cfg_attr(kani, kani::unwind(5))]
+pub fn c05_dijkstra_pred_wrappers_n2() {
+    pred_wrappers_n2();
 }
